@@ -332,6 +332,25 @@ def r3_codec(ctx):
             ctx.ok("C16.R3c", r, r.node, f"no re-ordering of the collected columns ({sorted(x for x in derived if x)})", construct="component order kept")
 
 
+def r3d_rows_follow_the_column_names(ctx):
+    """`to_dataframe`: the column names are generated from `_parameters_shape`, in its order; the values of each row are therefore looked up
+    *by name* in that same order (`indiv_p[p_name]` inside a loop over `_parameters_shape`) - a row built from the individual's own dictionary
+    order puts values under other names as soon as one individual lists its parameters in another order."""
+    from ..astq import Canon, unify
+    ctx.rule("C16.R3d", "to_dataframe: row values are looked up by parameter name, in the order the column names are generated", 1)
+    f = ctx.ix.func(MOD, f"{CLS}.to_dataframe", "C16.R3d")
+    ctx.analysed(f)
+    L = Canon(f.node).lines(False, True)
+    b = unify(L, ["for ($0._indices, ?i)", "?row = [?i]", "?ip = $0._individual_parameters[?i]", "for ($0._parameters_shape.items(), (?n, ?s))", "?row.append(?ip[?n])", "?row += ?ip[?n]", "?all.append(?row)"])
+    b2 = unify(L, ["for ($0._indices, ?i)", "?row = [?i]", "for ($0._parameters_shape.items(), (?n, ?s))", "?row.append($0._individual_parameters[?i][?n])", "?row += $0._individual_parameters[?i][?n]", "?all.append(?row)"])
+    okb = (b is not None and b["#0"] < b["#3"] < b["#4"] and b["#3"] < b["#5"] < b["#6"]) or (b2 is not None and b2["#0"] < b2["#2"] < b2["#3"] and b2["#2"] < b2["#4"] < b2["#5"])
+    text = "; ".join(L[:10])
+    ctx.form("C16.R3d", f, f.node, text, {text} if okb else set(), ["$0._parameters_shape", "$0._individual_parameters["], "row values taken by name over _parameters_shape",
+             "the values of a row are no longer looked up by name in the order of `_parameters_shape` (the order of the column names): an individual whose dictionary lists its parameters in "
+             "another order gets its values under the wrong names", forbidden=[r"_individual_parameters\[[^\]]+\]\.values\(\)", r"_individual_parameters\[[^\]]+\]\.items\(\)", r"%\d+\.values\(\)"],
+             construct="rows by name")
+
+
 def r4_tensor_json(ctx):
     ctx.rule("C16.R4", "tensor and JSON forms: shapes, length check, key agreement, string identifiers", 5)
     tp = ctx.ix.func(MOD, f"{CLS}.to_pytorch", "C16.R4")
@@ -429,6 +448,7 @@ def rules(ctx):
     r1_shape_cases(ctx)
     r2_validate_before_commit(ctx)
     r3_codec(ctx)
+    r3d_rows_follow_the_column_names(ctx)
     r4_tensor_json(ctx)
     r5_exact_export(ctx)
     r6_readers_keep_everything(ctx)
